@@ -13,6 +13,7 @@ import (
 	"math/rand"
 	"runtime"
 	"sort"
+	"strings"
 	"testing"
 
 	"github.com/unixpickle/model3d/model2d"
@@ -49,6 +50,7 @@ type Stats struct {
 	Desc                               string
 	Probes                             map[string]int
 	Calls                              int
+	ProcsFaults                        int // runs in which GOMAXPROCS was changed under the running call
 	// MapDep names the library routine whose Go-map iteration legitimately
 	// influences this case's execution order or bytes ("" = none): such a case is
 	// compared only on its order-free parts by the determinism self-test.
@@ -171,6 +173,8 @@ type variant struct {
 	Sticky     int
 	YieldEvery uint64
 	Knobs      map[string]int
+	// fault: GOMAXPROCS becomes ProcsTo inside the ProcsAt-th Contains call (0 = not armed)
+	ProcsAt, ProcsTo int
 }
 
 func pick(src *choice.Source, vs ...int) int { return vs[src.Intn(len(vs))] }
@@ -200,6 +204,9 @@ func genVariant(work *choice.Source) variant {
 }
 
 func (v variant) String() string {
+	if v.ProcsAt > 0 {
+		return fmt.Sprintf("workers=%d sticky=%d yieldEvery=%d knobs=%v GOMAXPROCS->%d in Contains call %d", v.Workers, v.Sticky, v.YieldEvery, v.Knobs, v.ProcsTo, v.ProcsAt)
+	}
 	return fmt.Sprintf("workers=%d sticky=%d yieldEvery=%d knobs=%v", v.Workers, v.Sticky, v.YieldEvery, v.Knobs)
 }
 
@@ -209,14 +216,27 @@ type runner struct {
 	sched *choice.Source
 	// refKnobs: knobs that only thin out scheduling points (never library
 	// constants) also apply to the reference run
-	refKnobs map[string]int
+	refKnobs   map[string]int
+	faultNotes []string
 }
 
 // sim runs f under the simulator with the variant's worker count/knobs; ref
 // runs it with one worker, FIFO schedule, default knobs.
 func (r *runner) sim(v variant, f func()) *Finding {
 	runtime.GOMAXPROCS(v.Workers)
-	res := simsched.Run(r.t, simsched.Config{Src: r.sched, Sticky: v.Sticky, Knobs: v.Knobs, Policy: simsched.DrawPolicy(r.sched)}, f)
+	pol := simsched.DrawPolicy(r.sched)
+	// fault: GOMAXPROCS changes while the call is in progress (one run in six)
+	if aux := r.sched.Aux(); aux.Intn(6) == 5 {
+		at := 1 + aux.Intn(1<<uint(1+aux.Intn(14)))
+		to := 1 + aux.Intn(2*v.Workers+2)
+		simsolid.ArmProcs(at, to)
+		v.ProcsAt, v.ProcsTo = at, to
+		r.faultNotes = append(r.faultNotes, fmt.Sprintf("GOMAXPROCS %d->%d inside Contains call %d of simulated run %d", v.Workers, to, at, len(r.st.TraceHashes)+1))
+	}
+	res := simsched.Run(r.t, simsched.Config{Src: r.sched, Sticky: v.Sticky, Knobs: v.Knobs, Policy: pol}, f)
+	if simsolid.ArmProcs(0, 0) > 0 {
+		r.st.ProcsFaults++
+	}
 	r.st.absorb(res)
 	return outcome(res, "variant "+v.String())
 }
@@ -861,6 +881,11 @@ func RunCase(t *testing.T, c *Case, work, sched *choice.Source, st *Stats) (fs [
 	defer func() {
 		c.Work, c.Sched, c.Pol = work.Tape(), sched.Tape(), sched.AuxTape()
 		runtime.GOMAXPROCS(16)
+		if len(r.faultNotes) > 0 {
+			for i := range fs {
+				fs[i].Msg += fmt.Sprintf(" [injected: %s]", strings.Join(r.faultNotes, "; "))
+			}
+		}
 	}()
 	switch c.Algo {
 	case "mc":
